@@ -2,7 +2,9 @@
 Model of `rusty_bit_vec/src/lib.rs` (`From<i32> for BitVec`, `bits_to_i32`, `BitAnd`, `BitOr`)
 and of the integer part of `rusty_variant/src/bits.rs`
 (`qb_and`, `qb_or`, `i32_to_bytes`, `bytes_to_i32`, `msb_bits_to_byte`, `lsb_bytes_to_msb_bits`),
-plus `Variant::unary_not` on integers (`-n - 1`).
+plus `Variant::unary_not` on integers (`-n - 1`), and of the double part of `bits.rs`
+(`f64_to_bytes`, `bytes_to_f64`) at the level the repaired code works: the 64-bit pattern of the
+double (`f64::to_bits`) split into 8 bytes least significant first and joined back.
 
 Bit vectors are `List Bool`, most significant bit first, exactly as `BitVec { v: Vec<bool> }`.
 Machine integers are `Int` (the code stores a 16-bit INTEGER in an `i32`; none of the
@@ -86,6 +88,40 @@ def peekByte (i : Int) (address : Nat) : Option Nat := (i32ToBytes i)[address]?
 /-- `PokeByte for Variant::VInteger`: replace one byte, convert back. -/
 def pokeByte (i : Int) (address : Nat) (value : Nat) : Int :=
   bytesToI32 ((i32ToBytes i).set address value)
+
+/-! ### Doubles: `f64_to_bytes` / `bytes_to_f64` (MKD$ / CVD)
+
+The repaired code is `f.to_le_bytes()` / `f64::from_le_bytes(bytes)`, which Rust defines as
+`f.to_bits().to_le_bytes()` / `f64::from_bits(u64::from_le_bytes(bytes))`.  A double is therefore
+represented here by its bit pattern `w = f.to_bits()`, a natural `< 2^64`; that `to_bits` /
+`from_bits` is the IEEE-754 binary64 encoding (and that they are mutually inverse on every
+pattern) is the hardware's and the compiler's business and is trusted, not modelled. -/
+
+/-- `u64::to_le_bytes` generalised to `n` bytes: the `n` low bytes of `w`, least significant first. -/
+def splitLE : Nat → Nat → List Nat
+  | 0, _ => []
+  | n + 1, w => w % 256 :: splitLE n (w / 256)
+
+/-- `u64::from_le_bytes` generalised to any number of bytes (least significant first). -/
+def joinLE : List Nat → Nat
+  | [] => 0
+  | b :: bs => b + 256 * joinLE bs
+
+/-- `f64_to_bytes(f)` on the bit pattern `w = f.to_bits()`. -/
+def f64ToBytes (w : Nat) : List Nat := splitLE 8 w
+
+/-- `bytes_to_f64(bytes).to_bits()` (the length check is the caller's: `cvd.rs` rejects strings
+that are not 8 bytes long). -/
+def bytesToF64 (bytes : List Nat) : Nat := joinLE bytes
+
+/-- IEEE-754 binary64 field layout of a pattern: 1 sign bit, 11 exponent bits, 52 fraction bits
+(most significant first). -/
+def f64Sign (w : Nat) : Nat := w / 2 ^ 63 % 2
+def f64Exponent (w : Nat) : Nat := w / 2 ^ 52 % 2048
+def f64Fraction (w : Nat) : Nat := w % 2 ^ 52
+
+/-- The pattern with the given fields. -/
+def f64Pack (sign exponent fraction : Nat) : Nat := sign * 2 ^ 63 + exponent * 2 ^ 52 + fraction
 
 /-! ### The specification side: 16-bit two's-complement words as naturals `< 65536`. -/
 
